@@ -32,12 +32,20 @@ Inductive pobs := PItems (items : list (str * pval)) | PErr (e : err).
 
 Record pcase := { p_key : str; p_text : str; p_obs : pobs }.
 
-Fixpoint items_eqb (a b : list (str * pval)) : bool :=
-  match a, b with
-  | [], [] => true
-  | (k, v) :: a', (k', v') :: b' => str_eqb k k' && pval_eqb v v' && items_eqb a' b'
-  | _, _ => false
+(** The property speaks of the assignments, not of their order: dicts are compared as maps
+    (both sides have unique keys: same size, and every entry of [a] is in [b] with an equal value). *)
+Fixpoint plookup (k : str) (d : list (str * pval)) : option pval :=
+  match d with
+  | [] => None
+  | (k', v) :: t => if str_eqb k k' then Some v else plookup k t
   end.
+
+Definition items_eqb (a b : list (str * pval)) : bool :=
+  Nat.eqb (length a) (length b) &&
+  forallb (fun kv => match plookup (fst kv) b with
+                     | Some v' => pval_eqb (snd kv) v'
+                     | None => false
+                     end) a.
 
 Definition pobs_of (r : res (list (str * pval))) : pobs :=
   match r with Ok l => PItems l | Err e => PErr e end.
@@ -71,12 +79,12 @@ Definition csa_val_eqb (a b : csa_val) : bool :=
   | _, _ => false
   end.
 
-Fixpoint csa_dict_eqb (a b : csa_dict) : bool :=
-  match a, b with
-  | [], [] => true
-  | (k, v) :: a', (k', v') :: b' => str_eqb k k' && csa_val_eqb v v' && csa_dict_eqb a' b'
-  | _, _ => false
-  end.
+Definition csa_dict_eqb (a b : csa_dict) : bool :=          (* as maps, see [items_eqb] *)
+  Nat.eqb (length a) (length b) &&
+  forallb (fun kv => match cget (fst kv) b with
+                     | Some v' => csa_val_eqb (snd kv) v'
+                     | None => false
+                     end) a.
 
 Definition cobs_of (r : res csa_dict) : cobs := match r with Ok l => CDict l | Err e => CErr e end.
 
